@@ -147,7 +147,7 @@ func (router *Router) FindRoute(req *http.Request) (*routers.Route, map[string]s
 		if pathItem == nil {
 			return nil, nil, &routers.RouteError{Reason: routers.ErrPathNotFound.Error()}
 		}
-		if pathItem.GetOperation(method) == nil {
+		if pathItem.Operations()[method] == nil { // GetOperation panics on a method it does not know
 			return nil, nil, &routers.RouteError{Reason: routers.ErrMethodNotAllowed.Error()}
 		}
 	}
